@@ -1024,7 +1024,7 @@ def rule_A3(F, R, ex=None):
                     R.count('A3:constructor-paths'); R.obligation(seq == ['<parse_simple_sub_formula>'], 'A3 sub passthrough')
                 elif fname == SIMPLE:
                     # dispatch arms returning the callee's tree unchanged
-                    ok = len(seq) == 1 and desc(v).startswith('NT:')
+                    ok = len(seq) == 1 and describe(v, evs, env).startswith('NT:')
                     R.count('A3:constructor-paths'); R.obligation(ok, 'A3 dispatch')
                     if not ok: R.violation('%s / A3 / dispatch %s' % (fname, seq), 'A3', 'dispatch arm does more than delegate: %s -> %s' % (seq, desc(v)))
                 elif fname in (PARSER + 'parse_variable_name', PARSER + 'parse_reference_name', PARSER + 'parse_countable'):
